@@ -156,6 +156,7 @@ type State struct {
 	steps   int
 	pending []pendingGo // goroutines not yet run (lazy spawn)
 	ghost   map[string]Value
+	splits  int // number of deliberate case splits (concretisations) on this path
 }
 
 type pendingGo struct {
@@ -205,6 +206,7 @@ type Frame struct {
 	ret    Value
 	depth  int
 	running bool // executing deferred calls
+	symIter bool // the last loop-header decision was symbolic
 }
 
 func (f *Frame) clone() *Frame {
